@@ -356,6 +356,135 @@ def check_inversion(rep):
                 sample='%s: %d implementations, convention %s' % (base, len(members), want))
 
 
+def check_base_step(rep):
+    """the byte-at-a-time update of the table-driven portable CRCs, as an expression tree over the linked IR:
+         normal (MSB first):  crc' = (crc << 8) ^ tab[((crc >> (W - 8)) ^ byte) & 0xff]
+         reflected:           crc' = (crc >> 8) ^ tab[(crc ^ byte) & 0xff]
+    with the byte read at a cursor that advances by one per iteration over len iterations (scalar evolution)."""
+    import llir, irrules, scev
+    R = rep.rule('T-CRC-BASE-STEP', 'every *_base CRC routine: the loop-carried register is updated as (crc << 8) ^ table[((crc >> (W-8)) ^ byte) & 0xff] for the MSB-first CRCs and (crc >> 8) ^ table[(crc ^ byte) & 0xff] for the '
+                 'reflected ones (expression tree, casts ignored, W = 16/32/64 from the catalogue), and the byte comes from a cursor advancing by 1 over len iterations', floor=13, unit='functions')
+    A = scev.analysis('default')
+    mod = A['#module']
+    allfn = {v: k for k, v in BASEFN.items()}
+    allfn.update(EXTRA_BASEFN)
+    for fn, crc in sorted(allfn.items()):
+        poly, W, refl, inv, _chk = CRCS[crc]
+        f = mod.funcs.get(fn)
+        if f is None:
+            raise AnalysisBroken(fn + ' not found in the linked IR')
+        R.instance()
+        F = scev.Forms(A, fn, [])
+        P = irrules.prov(mod, f)
+        tab = TABLES[crc][1]
+
+        def strip(v):
+            d = f.defs.get(v)
+            while d is not None and d.op in ('zext', 'sext', 'trunc', 'freeze'):
+                v = d.ops[0]
+                d = f.defs.get(v)
+            return v
+
+        def tree(v, depth=0):
+            v = strip(v)
+            if re.match(r'^-?\d+$', v):
+                return ('c', int(v))
+            d = f.defs.get(v)
+            if d is None or depth > 10:
+                return ('?', v)
+            if d.op == 'phi':
+                return ('crc', v)
+            if d.op in ('xor', 'and', 'or'):
+                return (d.op,) + tuple(sorted([tree(d.ops[0], depth + 1), tree(d.ops[1], depth + 1)], key=str))
+            if d.op in ('shl', 'lshr', 'ashr'):
+                return (d.op, tree(d.ops[0], depth + 1), tree(d.ops[1], depth + 1))
+            if d.op == 'load':
+                at = P.atoms(d.ops[0])
+                if any(a[0] == 'global' and a[1] == tab for a in at):
+                    g = f.defs.get(d.ops[0])
+                    idx = g.extra['idx'][-1].split()[-1] if g is not None and g.op == 'getelementptr' else None
+                    return ('tab', tree(idx, depth + 1) if idx else ('?', 'index'))
+                if any(a[0] == 'global' for a in at):
+                    return ('othertab', str(sorted(at, key=str)))
+                return ('byte', d.dst)
+            return ('?', v)
+        # loop-carried register
+        phis = [i for i in f.all_insns() if i.op == 'phi' and not (i.ty or '').endswith('*') and F.loop_of(i.block) == i.block]
+        cand = []
+        for ph in phis:
+            back = [v for v, pb in ph.extra['incoming'] if pb in F.loops[ph.block]]
+            if len(back) == 1:
+                t = tree(back[0])
+                if t[0] == 'xor' and any(x[0] == 'tab' for x in t[1:]):
+                    cand.append((ph, t))
+        if len(cand) != 1:
+            R.fail('crc/%s' % fn, '%s: no loop-carried value of the form (shifted crc) ^ table[...] found' % fn, key='T-CRC-BASE-STEP|%s|shape' % fn)
+            continue
+        ph, t = cand[0]
+        me = ('crc', ph.dst)
+        tabn = [x for x in t[1:] if x[0] == 'tab'][0]
+        other = [x for x in t[1:] if x[0] != 'tab'][0]
+        byte = None
+
+        def has_byte(x):
+            return isinstance(x, tuple) and (x[0] == 'byte' or any(has_byte(y) for y in x[1:] if isinstance(y, tuple)))
+
+        def norm_idx(x):
+            """index tree with `& 255` removed at the top"""
+            if x[0] == 'and' and ('c', 255) in x[1:]:
+                return [y for y in x[1:] if y != ('c', 255)][0], True
+            return x, False
+        problems = []
+        idx, masked = norm_idx(tabn[1])
+        if refl:
+            if other != ('lshr', me, ('c', 8)):
+                problems.append('the register part is %s, expected crc >> 8' % (other,))
+            # (crc ^ byte) & 255, or (crc & 255) ^ byte, or trunc-to-8 forms (casts stripped: then the mask may be implicit in an i8 xor)
+            ok_idx = False
+            if idx[0] == 'xor':
+                parts = list(idx[1:])
+                b = [y for y in parts if y[0] == 'byte']
+                c = [y for y in parts if y[0] != 'byte']
+                if len(b) == 1 and len(c) == 1 and c[0] in (me, ('and', ('c', 255), me), ('and', me, ('c', 255))):
+                    ok_idx = True
+                    byte = b[0]
+            if not ok_idx:
+                problems.append('the table index is %s, expected (crc ^ byte) & 0xff' % (tabn[1],))
+        else:
+            if other != ('shl', me, ('c', 8)):
+                problems.append('the register part is %s, expected crc << 8' % (other,))
+            ok_idx = False
+            if idx[0] == 'xor' and (masked or (ph.ty or '') == 'i%d' % W):       # a W-bit register shifted right by W-8 needs no mask
+                parts = list(idx[1:])
+                b = [y for y in parts if y[0] == 'byte']
+                c = [y for y in parts if y[0] != 'byte']
+                if len(b) == 1 and len(c) == 1 and c[0] == ('lshr', me, ('c', W - 8)):
+                    ok_idx = True
+                    byte = b[0]
+            if not ok_idx:
+                problems.append('the table index is %s, expected ((crc >> %d) ^ byte) & 0xff' % (tabn[1], W - 8))
+        if byte is not None:
+            ld = f.defs.get(byte[1])
+            b_, ix = F.addr(ld.ops[0])
+            L = F.loop_of(ph.block)
+            cnt = F.count(L)
+            want_ptr = scev.canon(scev.pvar('n%' + L))
+            lenp = [n for t_, n in f.params if n.endswith('len')]
+            ok_ptr = b_ in [n for t_, n in f.params if t_.rstrip().endswith('*')] and scev.canon(ix) == want_ptr
+            if not ok_ptr:
+                problems.append('the byte is read at %s + %s, expected the buffer argument + iteration number' % (b_, scev.pfmt(ix)))
+            # the loop runs len times: the trip count is `len`, or (buf + len umax buf) - buf for the pointer-compare form
+            cs = F.S['counts'].get('%' + L, '')
+            bufn = b_ or ''
+            lenn = lenp[0] if lenp else ''
+            norm = re.sub(r'\(ptrtoint i8\* (%[\w.]+) to i64\)', r'\1', cs)
+            norm = re.sub(r'\(sext i32 (%[\w.]+) to i64\)', r'\1', norm)
+            ok_cnt = cs == lenn or norm in ('((-1 * %s) + ((%s + %s) umax %s))' % (bufn, lenn, bufn, bufn), '((-1 * %s) + ((%s + %s) umax %s))' % (bufn, bufn, lenn, bufn))
+            if not ok_cnt:
+                problems.append('the loop runs %s times, expected len' % cs)
+        R.check(not problems, 'crc/%s' % fn, '%s: %s' % (fn, '; '.join(problems)), key='T-CRC-BASE-STEP|%s' % fn, sample='%s: %s step, W = %d' % (fn, 'reflected' if refl else 'MSB-first', W))
+
+
 def main(tier):
     rep = Report('C04', tier, level='other')
     rep.undecided = UNDECIDED
@@ -378,6 +507,7 @@ def main(tier):
     except ImportError:
         pass
     check_inversion(rep)
+    check_base_step(rep)
     import crcfold
     crcfold.check(rep, 400)
     import copypair
